@@ -7,8 +7,11 @@ import (
 	"fmt"
 	"math/rand"
 	"os"
+	"os/exec"
 	"path/filepath"
+	"runtime"
 	"strings"
+	"syscall"
 	"time"
 
 	"github.com/protobom/protobom/pkg/formats"
@@ -32,7 +35,7 @@ func guarded(deadline time.Duration, f func()) (kind, text string) {
 	go func() {
 		defer func() {
 			if r := recover(); r != nil {
-				done <- [2]string{"panic", fmt.Sprint(r)}
+				done <- [2]string{"panic", fmt.Sprint(r) + " @ " + panicSite()}
 				return
 			}
 			done <- [2]string{"ok", ""}
@@ -44,6 +47,22 @@ func guarded(deadline time.Duration, f func()) (kind, text string) {
 		return r[0], r[1]
 	case <-time.After(deadline):
 		return "hang", ""
+	}
+}
+
+// panicSite names the first protobom frame on the panicking stack.
+func panicSite() string {
+	pcs := make([]uintptr, 40)
+	n := runtime.Callers(3, pcs)
+	frames := runtime.CallersFrames(pcs[:n])
+	for {
+		f, more := frames.Next()
+		if strings.Contains(f.Function, "protobom/protobom") {
+			return fmt.Sprintf("%s:%d", filepath.Base(f.File), f.Line)
+		}
+		if !more {
+			return "?"
+		}
 	}
 }
 
@@ -194,7 +213,15 @@ func roundTrip(w *ndWriter, sid *int, doc *sbom.Document, fname string, indent i
 	nilDoc := map[string]any{"nil": true}
 	ev["wire"], ev["doc1"], ev["doc2"] = map[string]any{"bad": true}, nilDoc, nilDoc
 	ev["w1"], ev["r1"], ev["w2"], ev["r2"] = outcome("skip", ""), outcome("skip", ""), outcome("skip", ""), outcome("skip", "")
-	defer func() { w.write(ev) }()
+	if *sid <= skipCases {
+		return // already executed by an earlier child process
+	}
+	// write-ahead journal: if the process dies inside this case the parent turns this line into the event
+	ev["op"] = "RT-begin"
+	w.write(ev)
+	w.flush()
+	ev["op"] = "RT"
+	defer func() { w.write(ev); w.flush() }()
 	out, k, t := writeDoc(doc, trFormats[fname], indent)
 	ev["w1"] = outcome(k, t)
 	if k != "ok" {
@@ -235,14 +262,96 @@ func fixturePaths() []string {
 	}
 }
 
+var skipCases int
+
+// capChildMemory bounds the address space of an isolated child so that a run-away allocation ends as an
+// observable "exit" of that child and not as memory pressure on the whole machine.
+func capChildMemory() {
+	if os.Getenv("VH_MEMLIMIT") == "" {
+		return
+	}
+	lim := &syscall.Rlimit{Cur: 8 << 30, Max: 8 << 30}
+	_ = syscall.Setrlimit(syscall.RLIMIT_AS, lim)
+}
+
+// isolate re-runs the current command in child processes so that a runtime abort, os.Exit or hang inside
+// one case is attributed to that case (outcome kind "exit") and the remaining cases still run.
+func isolate(name string, args []string, out string) error {
+	self, _ := os.Executable()
+	final, err := newNDWriter(out)
+	if err != nil {
+		return err
+	}
+	defer final.close()
+	skip := 0
+	for attempt := 0; attempt < 200; attempt++ {
+		part := fmt.Sprintf("%s.part%d", out, attempt)
+		argv := append([]string{name}, args...)
+		argv = append(argv, "--child", "--skip", fmt.Sprint(skip), "--out", part)
+		cmd := exec.Command(self, argv...)
+		cmd.Env = append(os.Environ(), "VH_MEMLIMIT=1") // the child caps its own address space (capChildMemory)
+		done := make(chan error, 1)
+		if err := cmd.Start(); err != nil {
+			return err
+		}
+		go func() { done <- cmd.Wait() }()
+		var werr error
+		select {
+		case werr = <-done:
+		case <-time.After(30 * time.Minute):
+			cmd.Process.Kill()
+			werr = fmt.Errorf("timeout")
+			<-done
+		}
+		var pending map[string]any
+		readND(part, func(ev map[string]any) error {
+			if strings.HasSuffix(str(ev, "op"), "-begin") {
+				pending = ev
+				return nil
+			}
+			pending = nil
+			final.write(ev)
+			return nil
+		})
+		os.Remove(part)
+		if werr == nil {
+			return nil
+		}
+		if pending == nil {
+			return fmt.Errorf("child failed outside a case: %v", werr)
+		}
+		pending["op"] = strings.TrimSuffix(str(pending, "op"), "-begin")
+		pending["w1"] = outcome("exit", werr.Error())   // RT events
+		pending["o"] = outcome("exit", werr.Error())    // SER events
+		pending["died"] = outcome("exit", werr.Error()) // PF and other events
+		final.write(pending)
+		skip = integer(pending, "sid")
+	}
+	return fmt.Errorf("too many child restarts")
+}
+
 func trRun(args []string) error {
 	fs := flag.NewFlagSet("tr-run", flag.ExitOnError)
+	child := fs.Bool("child", false, "run in this process (internal)")
+	fs.IntVar(&skipCases, "skip", 0, "cases already executed (internal)")
 	out := fs.String("out", "", "trace file")
 	seed := fs.Int64("seed", 1, "seed")
 	n := fs.Int("n", 50, "documents")
 	mode := fs.String("mode", "spdx", "spdx | cdx | free | fixtures")
 	replay := fs.String("replay", "", "replay file")
 	fs.Parse(args)
+	if !*child {
+		var pass []string
+		for i := 0; i < len(args); i++ {
+			if args[i] == "--out" || args[i] == "-out" {
+				i++
+				continue
+			}
+			pass = append(pass, args[i])
+		}
+		return isolate("tr-run", pass, *out)
+	}
+	capChildMemory()
 	w, err := newNDWriter(*out)
 	if err != nil {
 		return err
